@@ -119,6 +119,9 @@ def run_call(ctx, want_cancel):
 
 
 def run_C14(ctx):
+    # HTTPClient.Do returns a response after the call's context was cancelled: that body is closed too
+    from . import p_scalars
+    p_scalars.scalars(ctx, {"late_response"}, [])
     return run_call(ctx, False)
 
 
@@ -136,7 +139,7 @@ def run_C15(ctx):
     # ... and the bare ctx.Err() itself, the context having ended through the timeout header of a peer that does not
     # enforce it, or through the server cancelling the request
     from . import p_scalars
-    p_scalars.scalars(ctx, {"handler_ctx"}, [])
+    p_scalars.scalars(ctx, {"handler_ctx", "late_response"}, [])
     return run_call(ctx, True)
 
 
